@@ -13,6 +13,7 @@ import (
 	"net/http"
 	"net/http/httptest"
 	"os"
+	"runtime"
 	"sort"
 	"strconv"
 	"strings"
@@ -29,10 +30,12 @@ var methods = []string{"GET", "POST", "DELETE", "FOO"}
 // All conflict-free, so the plain map keyed by (method, pattern) stays the exact reference.
 var patterns = []string{"/a", "/b/c", "/b/d", "/u/{id}", "/v/{name}/x", "/static/long/path", "/b/{x}/e",
 	"/foo", "/foo/bar", "/foo/bar/x", "/foo/baz", "/foo/bar/y", "/fo", "/foo/bar/x/deep", "/foobar",
-	"/a/a", "/a/b", "/a/c", "/a/d", "/a/e", "/a/f", "/a/g", "/a/h", "/a/i"}
+	"/a/a", "/a/b", "/a/c", "/a/d", "/a/e", "/a/f", "/a/g", "/a/h", "/a/i",
+	"/pair0", "/pair1", "/pair2"} // 24..26: only used by the commit-race stream (race.go)
 var reqPaths = []string{"/a", "/b/c", "/b/d", "/u/42", "/v/bob/x", "/static/long/path", "/b/zz/e",
 	"/foo", "/foo/bar", "/foo/bar/x", "/foo/baz", "/foo/bar/y", "/fo", "/foo/bar/x/deep", "/foobar",
-	"/a/a", "/a/b", "/a/c", "/a/d", "/a/e", "/a/f", "/a/g", "/a/h", "/a/i"}
+	"/a/a", "/a/b", "/a/c", "/a/d", "/a/e", "/a/f", "/a/g", "/a/h", "/a/i",
+	"/pair0", "/pair1", "/pair2"}
 
 const (
 	nestedFirst, nestedLast = 7, 14
@@ -131,7 +134,7 @@ type step struct {
 	kind   string // Plain Updates View
 	b      bstep
 	body   []bstep
-	ending string // RetNil RetErr PanicV
+	ending string // RetNil RetErr PanicV Goexit
 }
 
 func (s step) coq() string {
@@ -553,6 +556,10 @@ func (w *world) runStep(s step, writerOpen bool) (obs []string) {
 			return errBody
 		case "PanicV":
 			panic(panicV{})
+		case "Goexit":
+			// fn never returns and does not panic: it ends its goroutine (what t.FailNow / require.* do).
+			// Updates / View run in their own goroutine here (within), which the harness waits for.
+			runtime.Goexit()
 		}
 		return nil
 	}
@@ -560,9 +567,20 @@ func (w *world) runStep(s step, writerOpen bool) (obs []string) {
 	if wr && writerOpen {
 		wait = lockWait
 	}
+	returnedToCaller := false
 	done, ok := within(wait, func() {
 		defer func() {
-			if p := recover(); p != nil {
+			p := recover()
+			if p == nil && !returnedToCaller {
+				// the goroutine is being ended by runtime.Goexit: Updates / View did not return
+				if s.ending == "Goexit" {
+					fin = "OFinGoexit"
+				} else {
+					fin = "(* the goroutine calling Updates/View was ended unexpectedly *) OFinBlocked"
+				}
+				return
+			}
+			if p != nil {
 				if _, mine := p.(panicV); mine {
 					fin = "OFinPanicV"
 				} else if err, isErr := p.(error); isErr && errors.Is(err, fox.ErrSettledTxn) {
@@ -580,7 +598,10 @@ func (w *world) runStep(s step, writerOpen bool) (obs []string) {
 		} else {
 			err = w.f.View(fn)
 		}
-		if err == nil {
+		returnedToCaller = true
+		if s.ending == "Goexit" {
+			fin = "(* Updates/View returned although fn ended its goroutine *) OFinBlocked"
+		} else if err == nil {
 			fin = "OFinNil"
 		} else if returned != nil && errors.Is(err, returned) {
 			fin = "OFinErr"
@@ -938,9 +959,9 @@ func (g *gen) history(ntx int, st *hx.Stats, force func(i int) (kind string, nop
 			case x < 30:
 				kind, ending = "unmanaged", hx.Pick(g.rnd, []string{"commit", "commit", "abort"})
 			case x < 65:
-				kind, ending = "updates", hx.Pick(g.rnd, []string{"RetNil", "RetErr", "PanicV"})
+				kind, ending = "updates", hx.Pick(g.rnd, []string{"RetNil", "RetErr", "PanicV", "Goexit"})
 			case x < 75:
-				kind, ending = "view", hx.Pick(g.rnd, []string{"RetNil", "RetErr", "PanicV"})
+				kind, ending = "view", hx.Pick(g.rnd, []string{"RetNil", "RetErr", "PanicV", "Goexit"})
 			case x < 90:
 				kind = "single"
 			default:
@@ -1149,16 +1170,23 @@ func main() {
 
 	cs := &hx.Cases{
 		Header: "From FoxBase Require Import Bytes.\nFrom FoxTxn Require Import TxnSeq TxnCorr.\n",
-		Type:   "case",
+		Type:   "tcase",
 		Footer: "Definition mism := Eval vm_compute in mismatches cases.\nPrint mism.\n" +
 			"Definition viol := Eval vm_compute in spec_violations cases.\nPrint viol.\n" +
 			"Definition oof := Eval vm_compute in fuel_outs cases.\nPrint oof.\n",
 	}
-	st := &hx.Stats{Rule: "a case is one history on a fresh router: 1-5 transactions of 0-12 operations each (unmanaged Txn ended by Commit/Abort, Updates/View ended by nil / error / panic after the generated prefix, single-operation helpers, read-only transactions), with nested Snapshot/Iter/reads, use-after-settle, double endings, lock probes, and a full router observation by another goroutine after every step (also inside fn); the 'prefix' family replays one operation list ended at EVERY prefix in each of the five ways; non-trivial = the history contains at least one write transaction with >= 1 successful write; distinct = distinct step lists"}
+	st := &hx.Stats{Rule: "a case is one history on a fresh router: 1-5 transactions of 0-12 operations each (unmanaged Txn ended by Commit/Abort, Updates/View ended by nil / error / panic / runtime.Goexit after the generated prefix, single-operation helpers, read-only transactions), with nested Snapshot/Iter/reads, use-after-settle, double endings, lock probes, and a full router observation by another goroutine after every step (also inside fn); the 'prefix' family replays one operation list ended at EVERY prefix in each of the six ways; the 'commit-race' family is one (request, answer) pair observed while a writer goroutine commits multi-method transactions in a loop (the answer must be that of ONE committed state); non-trivial = the history contains at least one write transaction with >= 1 successful write; distinct = distinct step lists"}
 	n := 300
-	if tier == "thorough" {
+	switch tier {
+	case "thorough":
 		n = 1200
+	case "search":
+		// the fallback search of a quick run (an obligation broke but no generated input failed): wider than
+		// quick (fresh seed, longer prefixes, longer commit-race rounds) but bounded to a few minutes
+		n = 360
 	}
+	// commit-race stream first (own PRNG stream: the history generators below are not shifted by it)
+	raceStream(hx.NewRand(hx.Seed()^0x5ace5ace), tier, cs, st)
 	seen := map[string]bool{}
 	nontrivial := 0
 	emit := func(g *gen, family string) {
@@ -1167,8 +1195,8 @@ func main() {
 		_ = os.WriteFile("c04_current_history.txt", []byte("["+family+"] pool="+hx.ListOf(g.pool, key.coq)+"  "+hx.ListOf(g.steps, step.coq)), 0o644)
 		obs, cut := execute(g.steps, g.pool)
 		steps := g.steps[:cut]
-		term := "(" + hx.ListOf(g.pool, key.coq) + ", " + hx.ListOf(steps, step.coq) + ", " +
-			hx.ListOf(obs, func(o []string) string { return hx.List(o) }) + ")"
+		term := "(CHist (" + hx.ListOf(g.pool, key.coq) + ", " + hx.ListOf(steps, step.coq) + ", " +
+			hx.ListOf(obs, func(o []string) string { return hx.List(o) }) + "))"
 		sig := hx.ListOf(steps, step.coq)
 		if seen[sig] {
 			return
@@ -1258,10 +1286,13 @@ func main() {
 			probe := newGen(hx.NewRand(seed), "mixed")
 			total := probe.rnd.Range(1, 8)
 			_ = total
-			ways := [][2]string{{"unmanaged", "commit"}, {"unmanaged", "abort"}, {"updates", "RetNil"}, {"updates", "RetErr"}, {"updates", "PanicV"}}
+			ways := [][2]string{{"unmanaged", "commit"}, {"unmanaged", "abort"}, {"updates", "RetNil"}, {"updates", "RetErr"}, {"updates", "PanicV"}, {"updates", "Goexit"}}
 			nmax := 6
-			if tier == "thorough" {
+			switch tier {
+			case "thorough":
 				nmax = 12
+			case "search":
+				nmax = 8
 			}
 			for k := 0; k <= nmax; k++ {
 				for _, wy := range ways {
@@ -1283,7 +1314,7 @@ func main() {
 			// directed families: one scripted scenario ended in each of the five ways
 			seed := rnd.U64()
 			name := map[int]string{1: "nested", 2: "siblings"}[i%10]
-			for _, wy := range [][2]string{{"unmanaged", "commit"}, {"unmanaged", "abort"}, {"updates", "RetNil"}, {"updates", "RetErr"}, {"updates", "PanicV"}} {
+			for _, wy := range [][2]string{{"unmanaged", "commit"}, {"unmanaged", "abort"}, {"updates", "RetNil"}, {"updates", "RetErr"}, {"updates", "PanicV"}, {"updates", "Goexit"}} {
 				g := newGen(hx.NewRand(seed), name)
 				g.directed(name, wy[0], wy[1], st)
 				emit(g, name+"-directed")
